@@ -576,7 +576,7 @@ func (r *fileRW) goStmt(s *ast.GoStmt, at token.Pos) {
 			r.expr(a)
 		}
 		r.insert(at, fmt.Sprintf("{ simtok := sim.Spawn(%q); ", site))
-		r.insert(fl.Body.Lbrace+1, " sim.Born(simtok);")
+		r.insert(fl.Body.Lbrace+1, " sim.Born(simtok); defer sim.Done(simtok);")
 		r.block(fl.Body)
 		r.insert(s.End(), fmt.Sprintf(" }; sim.Yield(%q)", site+"'"))
 		return
@@ -614,7 +614,7 @@ func (r *fileRW) goStmt(s *ast.GoStmt, at token.Pos) {
 	if len(lhs) > 0 {
 		pre = strings.Join(lhs, ", ") + " := " + strings.Join(rhs, ", ") + "; "
 	}
-	text := fmt.Sprintf("{ %ssimtok := sim.Spawn(%q); go func() { sim.Born(simtok); %s(%s) }() }; sim.Yield(%q)",
+	text := fmt.Sprintf("{ %ssimtok := sim.Spawn(%q); go func() { sim.Born(simtok); defer sim.Done(simtok); %s(%s) }() }; sim.Yield(%q)",
 		pre, site, fn, strings.Join(args, ", "), site+"'")
 	if at != s.Pos() {
 		// labelled go statement: keep the label text
